@@ -65,11 +65,21 @@ def check(rep, pid, extra=()):
                           args=((pid,), nops, rec, settled, opr, sp, full), setup="setup", native_ctx="native_ctx",
                           jobs=3, query_timeout_s=900 if quick else 3000, loop_bound=200, int_union_limit=100000))
     for (nops, rec, settled, opr, spl, full) in FAULT.get(pid, []):
-        specs.append(dict(name=f"{pid}: {nops} op(s) with one transient add_watch failure (ENOENT/ENOTDIR/EACCES at the 1st "
-                               f"or 2nd call after start), recursive={rec}, root as {spl}",
+        specs.append(dict(name=f"{pid}: {nops} op(s) with one transient add_watch failure (ENOENT/ENOTDIR/EACCES at the 1st, "
+                               f"2nd or 3rd call after start), recursive={rec}, root as {spl}",
                           module="vf.props.fsfam", harness="h_history",
                           args=((pid,), nops, rec, settled, opr, spl, full, None, True), setup="setup", native_ctx="native_ctx",
                           jobs=3, query_timeout_s=900 if quick else 3000, loop_bound=200, int_union_limit=100000))
+    if pid == "C07":
+        # mkdir -p c/d; touch c/d/f completed before the reader handles the first IN_CREATE, and one of the watches the
+        # library then tries to add fails (no pacing condition: C07 quantifies over all timings)
+        first = (("mkdir", b"/r/a", b"/r/c"), ("mkdir", b"/r/a", b"/r/c/d"), ("create", b"/r/a", b"/r/c/d/f"))
+        specs.append(dict(name="C07: directed history: mkdir c; mkdir c/d; create c/d/f back to back, one transient add_watch "
+                               "failure (ENOENT/ENOTDIR/EACCES at the 1st, 2nd or 3rd call), recursive, str",
+                          module="vf.props.fsfam", harness="h_history",
+                          args=((pid,), 3, True, False, False, "str", False, first, True), setup="setup",
+                          native_ctx="native_ctx", jobs=3, query_timeout_s=900 if quick else 3000, loop_bound=200,
+                          int_union_limit=100000))
     specs.extend(extra)
     for sp in specs:
         sp["property"] = pid
